@@ -1,6 +1,7 @@
 package main
 
 import (
+	"bytes"
 	"fmt"
 	"math/big"
 	"strconv"
@@ -331,6 +332,24 @@ func init() {
 	suites["C13"] = func(c *Ctx) (string, error) {
 		var cases []Case
 		prefixes := wsPrefixes(3)
+		// long whitespace runs (word-sized and vectorised skips work in blocks: lengths around 8, 16, 32, 64)
+		for _, pre := range wsRuns() {
+			for _, b := range []byte{'n', 't', 'f', '"', '1', '-', '[', ']', '{', '}', ',', ':', 'x', 0, 0x0b, 0xff} {
+				d := append(append([]byte(nil), pre...), b)
+				h := hx(d)
+				cases = append(cases, apiCase("token:long-ws", "NextToken", h), apiCase("token:long-ws", "NextTokenType", h))
+				cases = append(cases, specCase("token:spec", "specToken "+h, tokenProjection(h)))
+			}
+			for _, lit := range []string{"null", "true", "false", "12", "-7", "1.5"} {
+				h := hx(append(append([]byte(nil), pre...), lit...))
+				for _, op := range []string{"ReadNull", "ReadBool", "ReadUint64", "ReadInt64", "ReadFloat64", "NextToken", "countWhitespace"} {
+					cases = append(cases, apiCase("long-ws:"+op, op, h))
+				}
+				cases = append(cases, specCase("token:spec", "specToken "+h, tokenProjection(h)))
+			}
+			h := hx(pre)
+			cases = append(cases, apiCase("token:eof", "NextToken", h), apiCase("token:eof", "NextTokenType", h), specCase("token:spec", "specToken "+h, tokenProjection(h)))
+		}
 		for _, pre := range prefixes {
 			for b := 0; b < 256; b++ {
 				d := append(append([]byte(nil), pre...), byte(b))
@@ -480,6 +499,17 @@ var intTypes = []intType{
 	{"ReadUint", "DecodeUint", "0", "18446744073709551615", false},
 }
 
+// wsRuns: long runs of whitespace, pure and mixed, of the lengths around which block-wise skipping changes behaviour.
+func wsRuns() (out [][]byte) {
+	for _, n := range []int{4, 7, 8, 9, 15, 16, 17, 24, 31, 32, 33, 63, 64, 65, 100} {
+		sp := bytes.Repeat([]byte(" "), n)
+		out = append(out, sp, bytes.Repeat([]byte("\t"), n), bytes.Repeat([]byte("\n"), n), bytes.Repeat([]byte("\r"), n),
+			append(append([]byte(nil), sp...), '\t'), append([]byte("\n"), sp...), append(append(append([]byte(nil), sp[:n-1]...), '\r'), ' '),
+			append(append([]byte(nil), sp...), sp...))
+	}
+	return
+}
+
 func intInputs(c *Ctx) (pool [][]byte) {
 	pow := func(b, e int64) *big.Int { return new(big.Int).Exp(big.NewInt(b), big.NewInt(e), nil) }
 	centers := []*big.Int{pow(2, 31), pow(2, 32), pow(2, 63), pow(2, 64), pow(10, 17), pow(10, 18), pow(10, 19), pow(10, 20), big.NewInt(0),
@@ -503,6 +533,23 @@ func intInputs(c *Ctx) (pool [][]byte) {
 	for _, s := range []string{"0", "-0", "7", "-7", "18446744073709551615", "-9223372036854775808", "123456789012345678", "1234567890123456789", "4294967295", "2147483647", "-2147483648"} {
 		for b := 0; b < 256; b++ {
 			pool = append(pool, append([]byte(s), byte(b)))
+		}
+	}
+	// every byte between the sign and the digits, between leading whitespace and the sign, and in front of everything
+	// (a sign must be followed by a digit at once; every whitespace byte and its neighbours in the table are tried)
+	for _, body := range []string{"0", "1", "7", "9223372036854775807", "9223372036854775808", "2147483648", "18446744073709551615"} {
+		for b := 0; b < 256; b++ {
+			pool = append(pool, append(append([]byte("-"), byte(b)), body...), append(append([]byte(" -"), byte(b)), body...),
+				append(append([]byte{byte(b)}, '-'), body...))
+			if b == ' ' || b == '\t' || b == '\n' || b == '\r' || b == 0x0b || b == 0x0c {
+				pool = append(pool, append(append([]byte{byte(b), byte(b), '-'}, byte(b)), body...), append([]byte{'+', byte(b)}, body...))
+			}
+		}
+	}
+	// long whitespace runs in front of the number
+	for _, pre := range wsRuns() {
+		for _, body := range []string{"0", "12", "-7", "18446744073709551615", "-9223372036854775808", "x"} {
+			pool = append(pool, append(append([]byte(nil), pre...), body...))
 		}
 	}
 	// digit strings of every length 1..25, all-nines and random
